@@ -1497,3 +1497,244 @@ end configuration;
         assert_eq!(root.entity_id_from_raw(0xFFFF << 32), None);
     }
 }
+
+/// Entry points for external verification harnesses (only with `--cfg vhdl_ls_rust_hdl_verif`):
+/// drive the dependency bookkeeping of `Library` / `DesignRoot` without running analysis.
+#[cfg(vhdl_ls_rust_hdl_verif)]
+pub mod verif_hooks {
+    use super::*;
+    use crate::syntax::VHDLParser;
+    use crate::VHDLStandard;
+    use std::path::Path;
+
+    pub fn key_string(unit_id: &UnitId) -> String {
+        match unit_id.key() {
+            UnitKey::Primary(name) => format!("Primary:{name}"),
+            UnitKey::Secondary(primary, name) => format!("Secondary:{primary}/{name}"),
+        }
+    }
+
+    #[derive(Debug, Default)]
+    pub struct LibraryState {
+        /// (unit key, index of the defining file)
+        pub units: Vec<(String, usize)>,
+        pub by_source: Vec<(usize, Vec<String>)>,
+        /// (unit key, index of the defining file, index of the file of the unit it duplicates)
+        pub duplicates: Vec<(String, usize, usize)>,
+        pub added: Vec<String>,
+        pub removed: Vec<String>,
+    }
+
+    fn file_index(files: &[&str], source: &Source) -> usize {
+        files
+            .iter()
+            .position(|name| Source::inline(Path::new(name), "").file_name() == source.file_name())
+            .unwrap_or(usize::MAX)
+    }
+
+    fn library_state(library: &Library, files: &[&str]) -> LibraryState {
+        let mut state = LibraryState::default();
+        for unit in library.units.values() {
+            state
+                .units
+                .push((key_string(unit.unit_id()), file_index(files, unit.source())));
+        }
+        for (source, ids) in library.units_by_source.iter() {
+            let mut keys: Vec<String> = ids.iter().map(key_string).collect();
+            keys.sort();
+            state.by_source.push((file_index(files, source), keys));
+        }
+        for (prev_pos, unit) in library.duplicates.iter() {
+            state.duplicates.push((
+                key_string(unit.unit_id()),
+                file_index(files, unit.source()),
+                file_index(files, prev_pos.source()),
+            ));
+        }
+        state.added = library.added.iter().map(key_string).collect();
+        state.removed = library.removed.iter().map(key_string).collect();
+        state.units.sort();
+        state.by_source.sort();
+        state.duplicates.sort();
+        state.added.sort();
+        state.removed.sort();
+        state
+    }
+
+    /// Apply a history of file updates to one library (`remove_source` then `add_design_file`, with
+    /// an optional reset point that drains the change sets); returns the state after every step.
+    pub fn library_history(
+        files: &[&str],
+        init: Option<&[&str]>,
+        steps: &[(usize, &str, bool)],
+    ) -> (Option<LibraryState>, Vec<LibraryState>) {
+        let parser = VHDLParser::new(VHDLStandard::default());
+        let mut library = Library::new(parser.symbols.symtab().insert_utf8("lib"));
+        let parse = |file: usize, text: &str| {
+            let source = Source::inline(Path::new(files[file]), text);
+            let mut diagnostics = Vec::new();
+            (
+                source.clone(),
+                parser.parse_design_source(&source, &mut diagnostics),
+            )
+        };
+        let mut init_state = None;
+        if let Some(init) = init {
+            for (file, text) in init.iter().enumerate() {
+                library.add_design_file(parse(file, text).1);
+            }
+            init_state = Some(library_state(&library, files));
+            library.added.clear();
+            library.removed.clear();
+        }
+        let mut states = Vec::new();
+        for (file, text, reset) in steps {
+            let (source, design_file) = parse(*file, text);
+            library.remove_source(&source);
+            library.add_design_file(design_file);
+            states.push(library_state(&library, files));
+            if *reset {
+                library.added.clear();
+                library.removed.clear();
+            }
+        }
+        (init_state, states)
+    }
+
+    /// Record `edges` (user, used) over `n` synthetic package units, then register one more use;
+    /// returns whether that last `make_use_of` reported a circular dependency and the final edges.
+    pub fn make_use_of_case(
+        n: usize,
+        edges: &[(usize, usize)],
+        user: usize,
+        unit: usize,
+    ) -> (bool, Vec<(usize, usize)>) {
+        let symbols = Arc::new(Symbols::default());
+        let root = DesignRoot::new(symbols.clone());
+        let lib = symbols.symtab().insert_utf8("lib");
+        let ids: Vec<UnitId> = (0..n)
+            .map(|i| UnitId::package(&lib, &symbols.symtab().insert_utf8(&format!("u{i}"))))
+            .collect();
+        for (user, unit) in edges {
+            let _ = root.make_use_of(None, &ids[*user], &ids[*unit]);
+        }
+        let is_err = root.make_use_of(None, &ids[user], &ids[unit]).is_err();
+        let mut out = Vec::new();
+        for (unit, users) in root.users_of.read().iter() {
+            for user in users.iter() {
+                let u = ids.iter().position(|id| id == user).unwrap();
+                let v = ids.iter().position(|id| id == unit).unwrap();
+                out.push((u, v));
+            }
+        }
+        out.sort();
+        (is_err, out)
+    }
+
+    #[derive(Debug, Default)]
+    pub struct ResetOutcome {
+        /// (unit key, still analyzed after reset)
+        pub units: Vec<(String, bool)>,
+        /// (used unit key, users)
+        pub users_of: Vec<(String, Vec<String>)>,
+        pub library_all_users: Vec<String>,
+        /// (primary name, secondary name, sensitive units)
+        pub missing: Vec<(String, Option<String>, Vec<String>)>,
+        pub added_or_removed_left: usize,
+    }
+
+    /// Load `files` into library `lib`, reset, mark every unit analyzed, record the given dependency
+    /// state, apply `changes` (file index, new text) and run `DesignRoot::reset`.
+    #[allow(clippy::type_complexity)]
+    pub fn reset_case(
+        files: &[(&str, &str)],
+        edges: &[(&str, &str)],
+        library_all: &[&str],
+        missing: &[(&str, &str, Option<&str>)],
+        changes: &[(usize, &str)],
+    ) -> ResetOutcome {
+        let parser = VHDLParser::new(VHDLStandard::default());
+        let symbols = parser.symbols.clone();
+        let mut root = DesignRoot::new(symbols.clone());
+        let lib = symbols.symtab().insert_utf8("lib");
+        for (name, text) in files {
+            let source = Source::inline(Path::new(name), text);
+            let mut diagnostics = Vec::new();
+            let design_file = parser.parse_design_source(&source, &mut diagnostics);
+            root.add_design_file(lib.clone(), design_file);
+        }
+        root.reset();
+        let id_of = |root: &DesignRoot, key: &str| -> Option<UnitId> {
+            root.get_lib(&lib)?
+                .units
+                .values()
+                .map(|unit| unit.unit_id().clone())
+                .find(|id| key_string(id) == key)
+        };
+        for unit in root.get_lib(&lib).unwrap().units.values() {
+            if let AnalysisEntry::Vacant(mut entry) = unit.unit.entry() {
+                entry.finish(AnalysisData {
+                    diagnostics: Vec::new(),
+                    has_circular_dependency: false,
+                    arena: FinalArena::default(),
+                });
+            }
+        }
+        for (user, unit) in edges {
+            if let (Some(user), Some(unit)) = (id_of(&root, user), id_of(&root, unit)) {
+                let _ = root.make_use_of(None, &user, &unit);
+            }
+        }
+        for user in library_all {
+            if let Some(user) = id_of(&root, user) {
+                root.make_use_of_library_all(&user, &lib);
+            }
+        }
+        for (user, primary, secondary) in missing {
+            if let Some(user) = id_of(&root, user) {
+                let primary = symbols.symtab().insert_utf8(primary);
+                let secondary = secondary.map(|name| symbols.symtab().insert_utf8(name));
+                root.make_use_of_missing_unit(&user, &lib, &primary, secondary.as_ref());
+            }
+        }
+        for (file, text) in changes {
+            let source = Source::inline(Path::new(files[*file].0), text);
+            let mut diagnostics = Vec::new();
+            let design_file = parser.parse_design_source(&source, &mut diagnostics);
+            root.remove_source(lib.clone(), &source);
+            root.add_design_file(lib.clone(), design_file);
+        }
+        root.reset();
+
+        let mut outcome = ResetOutcome::default();
+        let library = root.get_lib(&lib).unwrap();
+        for unit in library.units.values() {
+            outcome
+                .units
+                .push((key_string(unit.unit_id()), unit.unit.is_analyzed()));
+        }
+        for (unit, users) in root.users_of.read().iter() {
+            let mut users: Vec<String> = users.iter().map(key_string).collect();
+            users.sort();
+            outcome.users_of.push((key_string(unit), users));
+        }
+        if let Some(users) = root.users_of_library_all.read().get(&lib) {
+            outcome.library_all_users = users.iter().map(key_string).collect();
+        }
+        for ((_, primary, secondary), users) in root.missing_unit.read().iter() {
+            let mut users: Vec<String> = users.iter().map(key_string).collect();
+            users.sort();
+            outcome.missing.push((
+                primary.name_utf8(),
+                secondary.as_ref().map(|s| s.name_utf8()),
+                users,
+            ));
+        }
+        outcome.added_or_removed_left = library.added.len() + library.removed.len();
+        outcome.units.sort();
+        outcome.users_of.sort();
+        outcome.library_all_users.sort();
+        outcome.missing.sort();
+        outcome
+    }
+}
